@@ -226,7 +226,9 @@ def unparse_Constant(node: Constant, qm: typing.Literal["'", '"']) -> unparse_ge
         return "..."
     if isinstance(node.value, str):
         value = get_unescaped_str(node.value, qm)
-        return f"{qm}{value}{qm}"
+        # u"..." is remembered in the tree (Constant.kind)
+        prefix = "u" if getattr(node, "kind", None) == "u" else ""
+        return f"{prefix}{qm}{value}{qm}"
     if isinstance(node.value, (float, complex)):
         # "inf" is a name, not a literal; 1e309 overflows to inf
         return repr(node.value).replace("inf", "1e309")
